@@ -52,6 +52,42 @@ func ruleIOConv(c *Ctx) {
 			}
 			nTrim++
 			key := "trim:" + fname + ":" + f.Pkg().Path() + "." + nm
+			// (a) a fixed ASCII prefix/suffix/cutset is not class-based: nothing Unicode-aware about it
+			if nm == "TrimSuffix" || nm == "TrimPrefix" || nm == "TrimLeft" || nm == "TrimRight" || nm == "Trim" {
+				if len(call.Args) == 2 {
+					if tv, ok := info.Types[call.Args[1]]; ok && tv.Value != nil {
+						ascii := true
+						for _, b := range []byte(tv.Value.ExactString()) {
+							if b >= 0x80 {
+								ascii = false
+							}
+						}
+						if ascii {
+							c.trivial("trim-fixed:"+f.Pkg().Path()+"."+nm+":"+tv.Value.ExactString(), call.Pos(), "fixed ASCII cutset %s: removes exactly those bytes", tv.Value.ExactString())
+							return true
+						}
+					}
+				}
+			}
+			// (b) blank-splitting where AWK asks for it: the call is reached only when a separator equals " "
+			if nm == "Fields" {
+				if file := fileOf(c, "interp", fd); file != nil {
+					blank := false
+					for _, pc := range pathConds(file, call) {
+						if b, ok := pc.e.(*ast.BinaryExpr); ok && pc.sense && b.Op == token.EQL {
+							for _, side := range []ast.Expr{b.X, b.Y} {
+								if tv, ok := info.Types[side]; ok && tv.Value != nil && tv.Value.ExactString() == `" "` {
+									blank = true
+								}
+							}
+						}
+					}
+					if blank {
+						c.ok("trim-blank-split:"+f.Pkg().Path()+"."+nm, call.Pos(), "reached only when the separator is \" \": runs of blanks separate fields (the AWK default splitting)")
+						return true
+					}
+				}
+			}
 			if why, ok := trimTable[fname+":"+f.Pkg().Path()+"."+nm]; ok {
 				c.ok(key, call.Pos(), "tabled: %s", why)
 			} else {
